@@ -384,7 +384,7 @@ def _setup():
     import atexit
     import shutil
     d = os.path.abspath(tempfile.mkdtemp(prefix="baize-c14-%d-" % os.getpid()))
-    atexit.register(shutil.rmtree, d, True)
+    util._finalize_tree(d)
     os.makedirs(os.path.join(d, "sub"))
     for a in PATHS:
         for name, _ in PATHS[a]:
